@@ -259,6 +259,14 @@ func c16AnonCase(r *mon.R, G c16ag, n, mine, l, rep int) {
 		}
 	}
 
+	// (3b') extensions: the ciphertext followed by extra bytes (the tag is then no longer the last 16 bytes)
+	for _, extra := range []int{1, 16, 40} {
+		p, e, ok := dec("extend", append(append([]byte(nil), ct...), rng.Bytes(extra)...), mine, xs[mine], "extra", extra)
+		if ok {
+			c.altered("Decrypt", "extend", fmt.Sprintf("extra=%d", extra), p, e, msg, "extra", extra)
+		}
+	}
+
 	// (3c) alteration using only public data: change the body, recompute the tag from the ciphertext itself
 	retag := func(head, body []byte) []byte {
 		out := append(append([]byte(nil), head...), body...)
